@@ -116,8 +116,35 @@ pub fn judge_instance<T: Sc>(out: &mut CaseOut, stream: &str, case: u64, spec: &
             violation(out, stream, case, "successful fit without best_fit/residuals/jacobian", spec.to_json());
             return;
         };
-        let r: Vec<f64> = r.iter().map(|v| v.w()).collect();
+        // the property speaks about THE weighted sum of squares and THE Jacobian of the residuals: both are
+        // recomputed by the oracle from the supplied data and the reported alpha^, C^ (what the library
+        // reports as residuals and Jacobian is judged by C02/C03; a consistent rescaling of both would
+        // hide a different objective from a check that only used them)
+        let _ = (r, j);
+        let vh = View::new::<T>(&spec, &alpha_hat);
+        let Some(chat) = fit.coeffs().map(|c| widen(&c)) else {
+            violation(out, stream, case, "successful fit without coefficients", spec.to_json());
+            return;
+        };
+        let yw_o = spec.y64::<T>().row_scale(&spec.w64::<T>());
+        let r_o = yw_o.sub(&vh.phi_w.mul(&chat));
+        let r: Vec<f64> = r_o.d.clone();
         let ssq = la::dot(&r, &r);
+        let j = {
+            let (q, _) = la::qr(&vh.phi_w);
+            let np = spec.model.np();
+            let mut jm = Mat::zeros(n * s, np);
+            for k in 0..np {
+                let b = spec.model.dphi64::<T>(&alpha_hat, k).row_scale(&vh.w).mul(&chat);
+                let proj = q.mul(&q.tmul(&b));
+                for sx in 0..s {
+                    for i in 0..n {
+                        jm.set(sx * n + i, k, proj.at(i, sx) - b.at(i, sx));
+                    }
+                }
+            }
+            jm
+        };
         // SSQ at the generating parameters with optimal coefficients (oracle's QR)
         let vt = View::new::<T>(&spec, &alpha_true);
         let cstar = la::qr_solve(&vt.phi_w, &yw);
@@ -146,7 +173,7 @@ pub fn judge_instance<T: Sc>(out: &mut CaseOut, stream: &str, case: u64, spec: &
                 problems.push(format!("weighted sum of squares {ssq:e} exceeds that of the generating parameters {ssq_star:e}"));
             }
             // residual orthogonal to every Jacobian column
-            let jm = widen(&j);
+            let jm = j;
             let rn = la::norm2(&r);
             let mut worst: f64 = 0.0;
             for k in 0..jm.c {
